@@ -60,6 +60,19 @@ func (i *Inf) GetMetric(context.Context) *api.Metric {
 // NewMocknet creates a mocknet with n hosts using Key(base+i), fully linked
 // and connected.
 func NewMocknet(ctx context.Context, base, n int) (mocknet.Mocknet, []host.Host) {
+	mn, hosts := NewMocknetUnconnected(ctx, base, n)
+	if n > 1 {
+		if err := mn.ConnectAllButSelf(); err != nil {
+			panic(err)
+		}
+	}
+	return mn, hosts
+}
+
+// NewMocknetUnconnected is NewMocknet without the initial connections
+// (go-libp2p-pubsub v0.4 only learns about peers from connections made after
+// it was created: build the components first, then mn.ConnectAllButSelf()).
+func NewMocknetUnconnected(ctx context.Context, base, n int) (mocknet.Mocknet, []host.Host) {
 	mn := mocknet.New(ctx)
 	hosts := make([]host.Host, n)
 	for i := 0; i < n; i++ {
@@ -72,11 +85,6 @@ func NewMocknet(ctx context.Context, base, n int) (mocknet.Mocknet, []host.Host)
 	}
 	if err := mn.LinkAll(); err != nil {
 		panic(err)
-	}
-	if n > 1 {
-		if err := mn.ConnectAllButSelf(); err != nil {
-			panic(err)
-		}
 	}
 	return mn, hosts
 }
